@@ -134,3 +134,53 @@ func VP_C13_wire_roundtrip() {
 	}
 	vp.Cover("end")
 }
+
+// the container-level core of ChunkToSave -> ChunkFromSave (the name mapping
+// around it needs the registry and is outside): the palette and data a
+// container hands to the save form, read back by the with-data constructor,
+// give the same value at every position - for every representation class
+// (single value, linear, hash, direct).
+func VP_C13_save_container() {
+	L := 512
+	distinct := []int{1, 2, 16, 17, 200, 256, 257, 300}[vp.Choice(8)]
+	c := NewStatesPaletteContainer(L, 0)
+	model := make([]BlocksState, L)
+	first, last := vpStateID(), vpStateID()
+	vp.Assume(first > 3000 && last > 3000 && first != last)
+	for i := 0; i < L; i++ {
+		k := i % distinct
+		v := BlocksState(5 * k) // concrete distinct ids (0 = the default), two arbitrary
+		if k == 1 {
+			v = first
+		} else if k == distinct-1 && k > 1 {
+			v = last
+		}
+		c.Set(i, v)
+		model[i] = v
+	}
+	pal, data := vpSavedForm(c)
+	c2 := NewStatesPaletteContainerWithData(L, data, pal)
+	for i := 0; i < L; i++ {
+		vp.Assert(c2.Get(i) == model[i], "save form read back: same block state at every position")
+	}
+	vp.Cover("end")
+}
+
+// biomes: 64 positions, up to 64 distinct values.
+func VP_C13_save_container_biome() {
+	const L = 64
+	distinct := []int{1, 2, 3, 8, 9, 16, 17, 33, 64}[vp.Choice(9)]
+	c := NewBiomesPaletteContainer(L, 0)
+	model := make([]BiomesState, L)
+	for i := 0; i < L; i++ {
+		v := BiomesState(i % distinct)
+		c.Set(i, v)
+		model[i] = v
+	}
+	pal, data := vpSavedFormBiome(c)
+	c2 := NewBiomesPaletteContainerWithData(L, data, pal)
+	for i := 0; i < L; i++ {
+		vp.Assert(c2.Get(i) == model[i], "save form read back: same biome at every position")
+	}
+	vp.Cover("end")
+}
